@@ -41,6 +41,45 @@ func BuildOverlay(harnessDir, repoDir string) (map[string][]byte, error) {
 	return ov, nil
 }
 
+// LoadTolerant is Load, except that harness overlay files which do not type-check against
+// the current tree (a refactor removed or renamed an internal function a harness refers to)
+// are dropped one by one until the rest loads. dropped maps overlay path -> first error. The
+// harnesses living in dropped files cannot be decided on this tree (reported INCONCLUSIVE by
+// the driver); every other harness still runs. A tree that does not compile by itself, or an
+// error that cannot be attributed to a harness file, is still a load failure.
+func LoadTolerant(repoDir string, overlay map[string][]byte, patterns []string, tags string) (*Env, map[string]string, error) {
+	dropped := map[string]string{}
+	ov := map[string][]byte{}
+	for k, v := range overlay {
+		ov[k] = v
+	}
+	for iter := 0; iter < 12; iter++ {
+		env, err := Load(repoDir, ov, patterns, tags)
+		if err == nil {
+			return env, dropped, nil
+		}
+		msg := err.Error()
+		found := false
+		for _, line := range strings.Split(msg, "\n") {
+			for path := range ov {
+				if strings.Contains(filepath.Base(path), "zz_verif_") && strings.Contains(line, path) {
+					if _, ok := dropped[path]; !ok {
+						dropped[path] = strings.TrimSpace(line)
+						found = true
+					}
+				}
+			}
+		}
+		if !found {
+			return nil, dropped, err
+		}
+		for path := range dropped {
+			delete(ov, path)
+		}
+	}
+	return nil, dropped, fmt.Errorf("harness overlay does not load after dropping %d files", len(dropped))
+}
+
 // Harness finds a harness function by package suffix and name.
 func (e *Env) Harness(pkgSuffix, name string) (*ssa.Function, error) {
 	for _, p := range e.Pkgs {
